@@ -55,6 +55,7 @@ def inForce1 (cur : Option CfgV) : CfgOp → Option CfgV
   | .reload c => match cur with
     | none => none
     | some old => if cfgValid c then some c else some old
+  | .reloadEarlierErr _ => cur      -- the reload was rejected (another section is invalid): nothing changes
 
 def inForce (cur : Option CfgV) : List CfgOp → Option CfgV
   | [] => cur
